@@ -113,7 +113,7 @@ namespace
   std::vector<GCfg> configs(bool th)
   {
     std::vector<GCfg> v;
-    const std::vector<unsigned> N = th ? std::vector<unsigned>{1, 2, 3, 4} : std::vector<unsigned>{1, 2, 3};
+    const std::vector<unsigned> N = th ? std::vector<unsigned>{1, 2, 3, 4, 5} : std::vector<unsigned>{1, 2, 3};
     unsigned rr = 0;   // round-robin over the secondary coordinates so that each appears with every primary tuple class
     auto push = [&](GCfg c)
     {
@@ -122,7 +122,7 @@ namespace
       // output format: ASCII for two thirds of the files, the four binary formats round-robin for the rest; node and cell counts run through all residues mod 3
       c.format = (rr % 3 == 2) ? 1 + static_cast<int>((rr / 3) % 4) : 0;
       if (th)
-        for (int m : modes) { c.mode = m; c.comps = comps[rr % 3]; c.threads = threads[(rr / 3) % 3]; ++rr; set_bounds(c); v.push_back(c); }
+        for (int m : modes) for (int fmt = 0; fmt < 5; ++fmt) { c.mode = m; c.format = fmt; c.comps = comps[rr % 3]; c.threads = threads[(rr / 3) % 3]; ++rr; set_bounds(c); v.push_back(c); }
       else
         { c.mode = modes[rr % 4]; c.comps = comps[(rr / 4) % 3]; c.threads = threads[(rr / 2) % 3]; ++rr; set_bounds(c); v.push_back(c); }
     };
@@ -143,6 +143,13 @@ namespace
     { GCfg c; c.type = 1; c.dim = 3; c.nx = 9; c.ny = 7; c.nz = 8; push(c); c.dim = 2; c.nx = 23; c.nz = 11; push(c); c.dim = 3; c.world = 2; push(c); }
     { GCfg c; c.type = 2; c.dim = 2; c.nx = 8; c.ny = 8; c.nz = 9; c.bounds = 1; push(c); c.world = 1; push(c); }
     { GCfg c; c.type = 3; c.dim = 3; c.nx = 7; c.ny = 7; c.nz = 2; c.bounds = 1; push(c); }
+    // grids with more than 1024 / 4096 nodes: thread pools that treat small loops specially, and binary arrays that span several 32 KiB blocks
+    for (unsigned t : {2u, 3u, 5u, 7u, 11u, 16u})
+      { GCfg c; c.type = 0; c.dim = 3; c.nx = 10; c.ny = 10; c.nz = 10; c.comps = 2; c.threads = t; c.mode = (t % 4 == 3) ? 3 : 0; c.format = static_cast<int>(t % 5); set_bounds(c); v.push_back(c); }
+    for (int fmt = 0; fmt < 5; ++fmt)
+      { GCfg c; c.type = 0; c.dim = 3; c.nx = 16; c.ny = 16; c.nz = 16; c.comps = 1; c.threads = 4; c.format = fmt; set_bounds(c); v.push_back(c); }
+    { GCfg c; c.type = 1; c.dim = 3; c.nx = 12; c.ny = 11; c.nz = 9; c.comps = 2; c.threads = 6; c.format = 4; set_bounds(c); v.push_back(c); }
+    { GCfg c; c.type = 0; c.dim = 2; c.nx = 70; c.nz = 64; c.comps = 3; c.threads = 7; c.format = 4; set_bounds(c); v.push_back(c); }
     return v;
   }
 
@@ -836,8 +843,8 @@ int main(int argc, char **argv)
   Spec spec;
   spec.property = "C18";
   spec.level = "exploration";
-  spec.rule = "full product of grid type x dim x cell counts (n_cell_x, n_cell_y, n_cell_z each in 1..3|4) x 2 bound sets x 2 worlds, with compositions {0,2,4}, threads {1,2,3} and output mode "
-              "{plain, --filtered, --by-tag, both} assigned round-robin (quick) or all four modes per tuple (thorough), plus finer grids; one in-process run of the real gwb-grid main() per "
+  spec.rule = "full product of grid type x dim x cell counts (n_cell_x, n_cell_y, n_cell_z each in 1..3|5) x 2 bound sets x 2 worlds, with compositions {0,2,4}, threads {1,2,3} and output mode "
+              "{plain, --filtered, --by-tag, both} and output format assigned round-robin (quick) or all four modes x all five formats per tuple (thorough), plus finer grids and grids with 1331 / 4913 / 4615 nodes (thread counts 2..16, all five formats; arrays spanning several compression blocks); one in-process run of the real gwb-grid main() per "
               "configuration. non-trivial: at least one node lies inside a feature (tag >= 0)";
   spec.assumptions = {"the arrays are captured at the call of vtu11::writeVtu (full precision); the written file is parsed back: ASCII files are compared with the %.6g rendering of the arrays, Base64Inline / Base64Appended / RawBinary / RawBinaryCompressed files are decoded the way a VTK reader does (format, offset and header attributes, zlib blocks) and compared byte for byte",
                       "requested mesh: cartesian and chunk grids must be exactly the (n+1)-point lattice between the bounds (chunk: longitude, latitude, radius mapped to cartesian), cells the lattice cells in valid VTK node order; "
@@ -856,7 +863,7 @@ int main(int argc, char **argv)
     s[0].name = "grids";
     s[0].n = cfgs.size();
     s[0].run = [](uint64_t i, Ctx &c) { run_case(cfgs, i, c); };
-    s[0].bound = std::to_string(cfgs.size()) + " grid files: {cartesian 2-D/3-D, chunk 2-D/3-D (one across the +-180 meridian), annulus, sphere} x cell counts 1.." + (tier == "thorough" ? "4" : "3") + " per axis x 2 bound sets x 2 worlds";
+    s[0].bound = std::to_string(cfgs.size()) + " grid files: {cartesian 2-D/3-D, chunk 2-D/3-D (one across the +-180 meridian), annulus, sphere} x cell counts 1.." + (tier == "thorough" ? "5" : "3") + " per axis x 2 bound sets x 2 worlds";
     s[0].describe = [](uint64_t i) { return describe(cfgs[i]); };
     return s;
   });
